@@ -127,6 +127,43 @@ func (r *e2eRecv) deliver(s uint32) bool {
 	return err == nil
 }
 
+// ownSend lets the RECEIVER seal frames of its own towards the sender (regular and priority class); with wrap the
+// receiver's own outgoing regular sequence number crosses 2^32 first, which rolls its OUTGOING key. None of this
+// may touch what it has accepted from the sender.
+func (r *e2eRecv) ownSend(wrap bool) {
+	h := &state.EncryptionSessionTestHelper{EncryptionSession: r.p.sb.Encryption()}
+	if wrap {
+		h.ReglSetOut(0xFFFFFFFD)
+	}
+	for i := 0; i < 5; i++ {
+		for _, mt := range []frame.MessageType{frame.NetworkTraffic, frame.SessionCtrl} {
+			f, err := r.p.bb.NewFrameV1(r.p.b.ID.IP, r.p.a.ID.IP, mt, nil, []byte("own traffic of the receiver"), nil)
+			if err != nil {
+				panic(err)
+			}
+			if err := f.Seal(r.p.sb); err != nil {
+				panic(err)
+			}
+			f.ReturnToPool()
+		}
+	}
+}
+
+func (r *linkRecv) ownSend(wrap bool) {
+	h := &state.EncryptionSessionTestHelper{EncryptionSession: r.p.lb}
+	if wrap {
+		h.ReglSetOut(0xFFFFFFFD)
+	}
+	for i := 0; i < 5; i++ {
+		inner := []byte("own link traffic of the receiver")
+		buf := make([]byte, peering.FrameOffset+len(inner)+peering.FrameOverhead)
+		copy(buf[peering.FrameOffset:], inner)
+		if err := peering.LinkFrame(buf).Seal(r.p.lb); err != nil {
+			panic(err)
+		}
+	}
+}
+
 // --- binding 3: link frames --------------------------------------------------
 
 type linkRecv struct {
@@ -432,6 +469,13 @@ func run(c *vf.Ctx) {
 			order = append(order, order...)
 		}
 		for _, s := range order {
+			if os, ok := r.(interface{ ownSend(bool) }); ok && rng.Intn(40) == 0 {
+				// the receiver is a router too: it seals frames of its own in between, sometimes across the wrap of its own counter
+				wrap := rng.Intn(2) == 0
+				os.ownSend(wrap)
+				events = append(events, map[string]any{"ev": "ownsend", "h": h, "wrap": wrap})
+				c.Distinct(fmt.Sprintf("ownsend|%s|%v", r.name(), wrap))
+			}
 			got := r.deliver(s)
 			c.Eval(1)
 			events = append(events, map[string]any{"ev": "check", "h": h, "s": int(s), "ok": got})
@@ -505,6 +549,9 @@ func run(c *vf.Ctx) {
 		}
 		if ev["ev"] == "tcheck" {
 			kind = "timestamp-order"
+		}
+		if ev["ev"] == "ownsend" {
+			kind = "own-send"
 		}
 		c.Violation(vf.Key("trace", binding, kind),
 			fmt.Sprintf("%s: trace line %d (%v) is not allowed by SeqWindow_Trace after history of %d deliveries", binding, rejectAt, ev, len(hist)-1),
